@@ -117,6 +117,12 @@ type Fn struct {
 	// container: Invoke on scope S of a function with parameters P, ignoring
 	// the returned error (re-entrant use from inside user code, C02).
 	Reenter *Reenter `json:"reenter,omitempty"`
+	// Side: a call into the container made from inside the body on every
+	// execution, on scope SideS, that must not disturb the resolution in
+	// progress: "string", "visualize", "scope" (creates a child scope),
+	// "provide" / "decorate" (of a key type no generated function uses).
+	Side  string `json:"side,omitempty"`
+	SideS int    `json:"sides,omitempty"`
 }
 
 type Reenter struct {
@@ -371,6 +377,9 @@ func (f *Fn) Short() string {
 	}
 	if f.Bank > 0 {
 		s += fmt.Sprintf("#bank%d", f.Bank-1)
+	}
+	if f.Side != "" {
+		s += fmt.Sprintf("{body: %s@%d}", f.Side, f.SideS)
 	}
 	if f.Reenter != nil {
 		var ps []string
